@@ -3,7 +3,7 @@ package storage
 // Bounded stand-in for the parts of C09 no contract covers (merge of layers, disk cursors):
 // random histories of put/delete/flush over stacks of cache layers on each backend, every
 // range scan compared with a single ordered reference map. Bound: keys of 1..4 bytes over a
-// 5-byte alphabet (three letters and the two prefix bytes) under two 1-byte prefixes, up to 3 layers, up to 40 operations per
+// 5-byte alphabet (three letters and the two prefix bytes) under three 1-byte prefixes (one of them 0xFF, whose range has no upper bound), up to 3 layers, up to 40 operations per
 // history, one put in eight stores an empty value, every scan is made four times (synchronous with full
 // keys, stopped by the consumer after a random number of entries, limited to a random number of cache layers, asynchronous with the prefix cut), VERIF_BOUNDED_ITERS histories per backend (default 400),
 // seed VERIF_SEED.
@@ -109,8 +109,11 @@ func TestVerifBoundedC09(t *testing.T) {
 			}
 			key := func() []byte {
 				p := byte(STStorage)
-				if r.Intn(2) == 0 {
+				switch r.Intn(5) {
+				case 0, 1:
 					p = byte(DataMPT)
+				case 2:
+					p = 0xFF // a range with no upper bound: the backend cursor has no limit key to start a backwards scan from
 				}
 				return append([]byte{p}, gen(0)...)
 			}
